@@ -911,6 +911,18 @@ impl CatalogPersistence {
             catalog_offset
         );
 
+        let file_len = file
+            .metadata()
+            .wrap_err("failed to read catalog file metadata")?
+            .len();
+        ensure!(
+            (catalog_length as u64) <= file_len.saturating_sub(HEADER_SIZE as u64),
+            "catalog length {} exceeds catalog file size {} at '{}'",
+            catalog_length,
+            file_len,
+            path.display()
+        );
+
         let mut catalog_bytes = vec![0u8; catalog_length];
         file.read_exact(&mut catalog_bytes)
             .wrap_err("failed to read catalog data")?;
